@@ -1,95 +1,19 @@
 ---------------------------- MODULE Trace_Keyboard ----------------------------
-(***************************************************************************)
-(* (V) Trace validation for C18: calls recorded from a real Keyboard       *)
-(* (seeded random interleavings of all entry points with injected line     *)
-(* noise - flipped, dropped and extra bits, clear() on simulated timeouts  *)
-(* - or scripted scenarios) are replayed through the wiring of             *)
-(* Keyboard.tla instantiated with the three real stages used separately.   *)
-(* Every recorded line carries the input, the returned value, the layout   *)
-(* query made, the public state (get_modifiers, get_ctrl_handling) and     *)
-(* opaque ids of the three stage renderings after the call.  For every     *)
-(* line TLC checks:                                                        *)
-(*   - the returned value and the layout query are what the wiring yields, *)
-(*   - the public state equals the event stage's,                          *)
-(*   - a stage the wiring does not feed in this call keeps its opaque id.  *)
-(* The wiring is deterministic and total, so the whole trace is consumed;  *)
-(* every non-conforming line is recorded (at most 200 printed) and the     *)
-(* POSTCONDITION fails if there is one, or if a line was left unconsumed.  *)
-(***************************************************************************)
+(* (V) for C18: recorded calls against the wiring of the three REAL stages used separately. *)
 EXTENDS KeyboardImplStages, TLC
 
-Rec == ndJsonDeserialize(IOEnv.TRACE)
-Comp == IOEnv.COMP
-N == Len(Rec)
-
+TheRec == ndJsonDeserialize(IOEnv.TRACE)
+TheComp == IOEnv.COMP
 VARIABLES fs, ss, es, kout, l, sid
-tvars == <<fs, ss, es, kout, l, sid>>
-
-K == INSTANCE Keyboard WITH
+ImSName(x) == x
+ImAlive(f, s, e) == f # 0 /\ s # 0 /\ e # 0
+T == INSTANCE TraceKb WITH
+       Rec <- TheRec, Comp <- TheComp, Mode <- "wiring",
        FInit <- ImFInit, FBitOut <- ImFBitOut, FBitNext <- ImFBitNext, FClear <- ImFClear, FWordOut <- ImFWordOut,
-       SInit <- ImSInit, SOut <- ImSOut, SNext <- ImSNext,
-       EInit <- ImEInit, EKeyOut <- ImEKeyOut, EKeyNext <- ImEKeyNext, EModeNext <- ImEModeNext
-
-(* count and print non-conforming lines without stopping (register 1 = count) *)
-Flag(rec) == /\ TLCSet(1, TLCGet(1) + 1)
-             /\ (IF TLCGet(1) <= 200 THEN PrintT(<<"@@M", ToJson(rec)>>) ELSE TRUE)
-
-Step(x) ==
-  CASE x[1] = "bit" -> K!KbAddBit(x[2])
-    [] x[1] = "clear" -> K!KbClear
-    [] x[1] = "word" -> K!KbAddWord(x[2])
-    [] x[1] = "byte" -> K!KbAddByte(x[2])
-    [] x[1] = "key" -> K!KbProcessKeyEvent(x[2], x[3])
-    [] x[1] = "mode" -> K!KbSetCtrlHandling(x[2])
-Reset == fs' = ImFInit /\ ss' = ImSInit /\ es' = ImEInit /\ kout' = <<"none">>
-
-ExpQuery(x) == IF x[1] = "key" THEN ImEQuery(es, x[2], x[3]) ELSE <<"noq">>
-(* which stages (1 frame, 2 scancode, 3 event) this call feeds in the current state *)
-Fed(x) == CASE x[1] = "bit" -> {1} \cup (IF ImFBitOut(fs, x[2])[1] = "byte" THEN {2} ELSE {})
-            [] x[1] = "clear" -> {1}
-            [] x[1] = "word" -> IF ImFWordOut(x[2])[1] = "byte" THEN {2} ELSE {}   \* rejected: dropped
-            [] x[1] = "byte" -> {2}
-            [] x[1] \in {"key", "mode"} -> {3}
-            [] OTHER -> {1, 2, 3}
-
-(* checks made while consuming line l (pre-state = current state) *)
-CheckLine ==
-  LET r == Rec[l]  x == r["in"] IN
-  IF x[1] = "reset" THEN TRUE ELSE
-  LET exp == CASE x[1] = "bit" -> K!BitResult(fs, ss, x[2])
-               [] x[1] = "word" -> K!WordResult(ss, x[2])
-               [] x[1] = "byte" -> ImSOut(ss, x[2])
-               [] x[1] = "key" -> ImEKeyOut(es, x[2], x[3])
-               [] OTHER -> <<"none">>
-  IN
-  (* IF, not \/ : inside an action TLC evaluates every disjunct *)
-  /\ IF r.ret = exp /\ r.q = ExpQuery(x) THEN TRUE
-     ELSE Flag([prop |-> "C18", kind |-> "trace-ret", comp |-> Comp, line |-> l, input |-> x,
-                observed |-> r.ret, expected |-> exp, observed_query |-> r.q, expected_query |-> ExpQuery(x)])
-  /\ IF Len(sid) # 3 \/ Len(r.stage) # 3 THEN TRUE
-     ELSE \A s \in {1, 2, 3} \ Fed(x) :
-            IF r.stage[s] = sid[s] THEN TRUE
-            ELSE Flag([prop |-> "C18", kind |-> "trace-stage", comp |-> Comp, line |-> l, input |-> x, stage |-> s,
-                       note |-> "a stage this call does not feed changed its state"])
-
-TInit == /\ K!KbInit /\ l = 1 /\ sid = <<>> /\ TLCSet(1, 0)
-TNext == /\ l <= N /\ fs # 0 /\ ss # 0 /\ es # 0
-         /\ CheckLine
-         /\ LET x == Rec[l]["in"] IN IF x[1] = "reset" THEN Reset ELSE Step(x)
-         /\ l' = l + 1
-         /\ sid' = Rec[l].stage
-TSpec == TInit /\ [][TNext]_tvars
-
-(* public state after each consumed line *)
-ObsOK == (l > 1 /\ es # 0 /\ Rec[l - 1].ret[1] # "panic") =>
-  ( (Rec[l - 1].obs[1] = ImEMods(es) /\ Rec[l - 1].obs[2] = ImEMode(es))
-    \/ Flag([prop |-> "C18", kind |-> "trace-obs", comp |-> Comp, line |-> l - 1, input |-> Rec[l - 1]["in"],
-             observed |-> Rec[l - 1].obs, expected |-> <<ImEMods(es), ImEMode(es)>>]) )
-
-Accepted ==
-  /\ PrintT(<<"@@S", ToJson([lines |-> N, consumed |-> TLCGet("stats").diameter - 1, flagged |-> TLCGet(1)])>>)
-  /\ TLCGet(1) = 0
-  /\ ( TLCGet("stats").diameter = N + 1
-       \/ (PrintT(<<"@@M", ToJson([prop |-> "C18", kind |-> "trace-not-consumed", comp |-> Comp,
-                                   consumed |-> TLCGet("stats").diameter - 1, lines |-> N])>>) /\ FALSE) )
+       SInit <- ImSInit, SOut <- ImSOut, SNext <- ImSNext, SName <- ImSName,
+       EInit <- ImEInit, EKeyOut <- ImEKeyOut, EKeyNext <- ImEKeyNext, EModeNext <- ImEModeNext,
+       EQuery <- ImEQuery, EMods <- ImEMods, EMode <- ImEMode, Alive <- ImAlive
+TSpec == T!TSpec
+ObsOK == T!ObsOK
+Accepted == T!Accepted
 =============================================================================
